@@ -27,6 +27,16 @@ IMPLS = [
     ("compiler::debug::build_table_mut", None, "symbol/relabel table builder"),
 ]
 ABSORB = ("Digest>::update", "Digest::update", "Bytes::concat")
+# a preimage assembled in a byte vector before it is hashed: push(tag) / extend_from_slice(part) are feeds as well
+VEC_FEEDS = ("Vec::<T, A>::push", "Vec::<T, A>::extend_from_slice")
+
+
+def is_feed(t):
+    c = callee_of(t) or ""
+    if any(x in c for x in ABSORB):
+        return True
+    return any(c.endswith(x) for x in VEC_FEEDS) and (t.get("gargs") or [""])[0] == "u8"
+
 NO_INLINE = {"compiler::clvm::sha256tree", "compiler::debug::build_table_mut", "classic::clvm_tools::sha256tree::sha256tree",
              "compiler::clvm::convert_to_clvm_rs", "compiler::clvm::convert_from_clvm_rs", "compiler::clvm::run", "compiler::clvm::run_step"}
 
@@ -72,6 +82,26 @@ def child_rank(f, fl, arg_op):
     return min(idx) if idx else None
 
 
+def _array_order(f, fl, dl, derived):
+    """dl iterates over an array literal whose elements are, in order, H(first)- and H(rest)-derived: ['first', 'rest']."""
+    for x in fl.back_pure([dl]):
+        for _, _, st in f.stmts():
+            if fl.node(st["pl"]) == x and st["rv"]["k"] == "agg" and st["rv"].get("agg") == "array" and len(st["rv"]["ops"]) >= 2:
+                out = []
+                for o in st["rv"]["ops"]:
+                    ol = op_local(o)
+                    if ol is None:
+                        return None
+                    if ol in derived["first"] and ol not in derived["rest"]:
+                        out.append("first")
+                    elif ol in derived["rest"] and ol not in derived["first"]:
+                        out.append("rest")
+                    else:
+                        return None
+                return out
+    return None
+
+
 def frame_of(prog, path, atom_helper):
     """Return (pair_frame, atom_frame, problems).  Frames are lists like [2, 'first', 'rest'] / [1, 'bytes']."""
     f0 = prog.fn(path)
@@ -97,7 +127,7 @@ def frame_of(prog, path, atom_helper):
         child_calls.sort(key=lambda x: x[2])
         first, rest = child_calls[0], child_calls[1]
         derived = {"first": fwd_pure(fl, [first[1]["dest"]["l"]]), "rest": fwd_pure(fl, [rest[1]["dest"]["l"]])}
-        later = [bb for bb, t in f.calls() if any(x in (callee_of(t) or "") for x in ABSORB)
+        later = [bb for bb, t in f.calls() if is_feed(t)
                  and f.dominates(first[0], bb) and f.dominates(rest[0], bb)]
         seq = []
         base_seen = False
@@ -115,6 +145,8 @@ def frame_of(prog, path, atom_helper):
                 seq.append("first")
             elif dl is not None and dl in derived["rest"] and dl not in derived["first"]:
                 seq.append("rest")
+            elif dl is not None and dl in derived["rest"] and dl in derived["first"] and _array_order(f, fl, dl, derived):
+                seq.extend(_array_order(f, fl, dl, derived))      # one feed per element of an ordered `&[a, b]` of parts
             elif dl is not None:
                 ints = [v for v in const_ints(fl.consts_into([dl])) if 0 < v < 256]
                 c = op_const(data)
@@ -132,7 +164,7 @@ def frame_of(prog, path, atom_helper):
         problems.append("atom helper %s not found" % atom_helper)
     else:
         gfl = Flow(g) if g is not f else fl
-        events = [bb for bb, t in g.calls() if any(x in (callee_of(t) or "") for x in ABSORB)]
+        events = [bb for bb, t in g.calls() if is_feed(t)]
         if atom_helper is None:
             # events of the atom arm: not dominated by a child-hashing recursive call
             events = [bb for bb in events if not any(g.dominates(cb, bb) for cb, _, _ in child_calls)]
@@ -176,7 +208,9 @@ def frame_of(prog, path, atom_helper):
 
 
 COPYISH = ("Allocator::atom", "::as_ref", "::to_vec", "::clone", "Bytes::new", "::deref", "::borrow", "::as_slice", "Bytes::data",
-           "::as_bytes", "::into", "::from", "::to_owned", "::into_vec", "exchange_malloc", "box_new", "Box::<T>::new")
+           "::as_bytes", "::into", "::from", "::to_owned", "::into_vec", "exchange_malloc", "box_new", "Box::<T>::new",
+           # walking an array of parts (`for part in parts.iter()`): the element is one of the parts, unchanged
+           "::iter", "::into_iter", "Iterator>::next", "::copied", "::cloned")
 NORMALISERS = ("util::u8_from_number",)
 
 
